@@ -184,7 +184,7 @@ def property_from_data(  # noqa: PLR0911, PLR0912
             )
         return prop, schemas
 
-    if data.type == oai.DataType.BOOLEAN:
+    if data.type == oai.DataType.BOOLEAN and data.const is None:
         return (
             BooleanProperty.build(
                 name=name,
